@@ -48,17 +48,17 @@ CHECK = {
          "params": {"maxQuadDiv": dict(_QUAD_Q)},
          "case_timeout": 120},
         {"name": "refine_flat", "variant": "asan", "harness": "c19_refine_simplify.cpp",
-         "cases": {"quick": 1200, "thorough": 12000},
+         "cases": {"quick": 600, "thorough": 6000},
          "params": {"steps": {"quick": 6, "thorough": 9}, "maxTris": {"quick": 400, "thorough": 1500},
                     "maxOutTris": {"quick": 12000, "thorough": 40000}, "points": {"quick": 12, "thorough": 16}},
          "case_timeout": 300},
         {"name": "refine_smooth", "variant": "asan", "harness": "c19_refine_simplify.cpp",
-         "cases": {"quick": 1200, "thorough": 12000},
+         "cases": {"quick": 600, "thorough": 6000},
          "params": {"steps": {"quick": 6, "thorough": 9}, "maxTris": {"quick": 400, "thorough": 1500},
                     "maxOutTris": {"quick": 12000, "thorough": 40000}},
          "case_timeout": 300},
         {"name": "simplify", "variant": "asan", "harness": "c19_refine_simplify.cpp",
-         "cases": {"quick": 1500, "thorough": 15000},
+         "cases": {"quick": 800, "thorough": 8000},
          "params": {"maxRefine": {"quick": 5, "thorough": 7}},
          "case_timeout": 300},
     ],
